@@ -234,3 +234,152 @@ func (w *world) opLines(c *call, signed map[util.Uint160]bool, caller util.Uint1
 		*out = append(*out, fmt.Sprintf("setregprice %s %d", c.amt, wit(w.committeeHash())))
 	}
 }
+
+// label names the call for the input-distribution counters.
+func (c *call) label(w *world) string {
+	via := ""
+	if c.via != nil {
+		via = "@wallet"
+	}
+	switch c.kind {
+	case kTransfer:
+		tok := "gas"
+		if c.neo {
+			tok = "neo"
+		}
+		to := "plain"
+		switch {
+		case c.dst == c.src:
+			to = "self"
+		case c.dst == w.notaryH:
+			to = "notary"
+		case c.dst == w.neoH:
+			to = "neo-contract"
+		case w.isWallet(c.dst):
+			to = "wallet-" + w.recvOf(c.dst, c.data)
+		case c.dst == w.treasuryH:
+			to = "treasury"
+		case c.dst == w.nopay || c.dst == w.gasH:
+			to = "no-callback"
+		}
+		z := ""
+		if c.amt.Sign() == 0 {
+			z = "-zero"
+		}
+		return "transfer-" + tok + "-" + to + z + via
+	case kVote:
+		if c.pub == nil {
+			return "unvote" + via
+		}
+		return "vote" + via
+	case kRegister:
+		return "register"
+	case kUnregister:
+		return "unregister"
+	case kLock:
+		return "lock"
+	case kWithdraw:
+		return "withdraw"
+	case kSetGpb:
+		return "setGasPerBlock"
+	case kSetRegPrice:
+		return "setRegisterPrice"
+	}
+	return "?"
+}
+
+// coverage counts interesting state transitions of a block.
+func (w *world) coverage(o interface{ Count(string) }, pre, post *absState, xs []xfer) {
+	for k, c := range pre.cands {
+		pc := post.cands[k]
+		switch {
+		case pc == nil:
+			o.Count("cand:record-removed")
+			if c.votes.Sign() > 0 {
+				o.Count("cand:record-removed-by-vote-loss")
+			}
+		case c.reg && !pc.reg:
+			o.Count("cand:unregistered-kept-voted")
+		case !c.reg && pc.reg:
+			o.Count("cand:re-registered-with-votes")
+		}
+	}
+	for k, c := range post.cands {
+		if pre.cands[k] == nil {
+			o.Count("cand:record-created")
+			if g := pre.gpv[k]; g != nil {
+				_ = g
+			}
+		}
+		if !c.reg && c.votes.Sign() > 0 {
+			o.Count("state:unregistered-candidate-with-votes")
+		}
+	}
+	for h, a := range pre.neo {
+		pa := post.neo[h]
+		if pa == nil {
+			o.Count("neo:account-deleted")
+			if a.vote != nil {
+				o.Count("neo:voting-account-deleted")
+			}
+			continue
+		}
+		if a.vote != nil && pa.vote != nil && !a.vote.Equal(pa.vote) {
+			o.Count("neo:vote-changed")
+		}
+		if a.vote != nil && pa.vote == nil {
+			o.Count("neo:vote-revoked")
+		}
+		if a.vote == nil && pa.vote != nil {
+			o.Count("neo:vote-cast")
+		}
+		if a.vote != nil && pa.vote != nil && a.bal.Cmp(pa.bal) != 0 {
+			o.Count("neo:voter-balance-changed")
+		}
+		if pa.lgpv.Sign() != 0 {
+			o.Count("state:account-with-lastGasPerVote")
+		}
+	}
+	for h := range pre.deps {
+		if post.deps[h] == nil {
+			o.Count("deposit:removed")
+		} else if post.deps[h].amount.Cmp(pre.deps[h].amount) < 0 {
+			o.Count("deposit:charged")
+		} else if post.deps[h].amount.Cmp(pre.deps[h].amount) > 0 {
+			o.Count("deposit:topped-up")
+		} else if post.deps[h].till != pre.deps[h].till {
+			o.Count("deposit:relocked")
+		}
+	}
+	for h := range post.deps {
+		if pre.deps[h] == nil {
+			o.Count("deposit:created")
+		}
+	}
+	if len(post.gpv) > 0 {
+		o.Count("state:gas-per-vote-records")
+	}
+	for i, c := range post.committee {
+		if i < len(w.standby) && !c.pub.Equal(w.standby[i].PublicKey()) {
+			o.Count("state:elected-committee-differs-from-standby")
+			break
+		}
+	}
+	for _, c := range post.committee {
+		if c.votes.Sign() > 0 {
+			o.Count("state:committee-member-with-votes")
+			break
+		}
+	}
+	for _, x := range xs {
+		if !x.neo && x.from == nil && x.amt.Sign() > 0 {
+			o.Count("event:gas-mint")
+		}
+		if !x.neo && x.to == nil {
+			o.Count("event:gas-burn")
+		}
+	}
+	if len(post.neo) != len(pre.neo) || len(post.gas) != len(pre.gas) {
+		o.Count("state:account-set-changed")
+	}
+}
